@@ -143,7 +143,10 @@ def merged_fields(db, ctx):
                     tgt = local_name(p["recv"])
                     srcf = peel(p["args"][0])
                     fn_ = srcf.get("name") if srcf.get("k") == "Field" else None
-                    fields.add((tgt, fn_, in_order))
+                    # every part contributes: the push is not skipped for some nodes (`if part == "," { continue }` drops the
+                    # separators from the merged surface / forms)
+                    uncond = not [1 for cn, pol in (path_conditions(p["id"], body) or []) if isinstance(cn, (dict, tuple))]
+                    fields.add((tgt, fn_, in_order and uncond))
         # the merged surface must be one of the concatenated strings, and the record must not inherit anything else from a part
         has_surface = any(tgt == "surface" and fn_ == "surface" and in_order for tgt, fn_, in_order in fields)
         ctx.ob("%s|surface-is-concatenation" % nm, has_surface,
